@@ -1,11 +1,13 @@
 package main
 
 import (
+	"fmt"
 	"go/ast"
 	"go/parser"
 	"go/token"
 	"os"
 	"path/filepath"
+	"sort"
 	"strconv"
 	"strings"
 )
@@ -21,6 +23,74 @@ func collect(repo string, f *facts) {
 	serFacts(f)
 	packFacts(f)
 	xformFacts(f)
+	cfgFacts(f)
+}
+
+// ---- C16: Must… / panic sites in constructors ----
+func cfgFacts(f *facts) {
+	f.note["cfg_must_sites"] = "every call that can panic or exit (Must…, panic, .Panic/.Panicf, .Fatal/.Fatalf) inside the constructors reachable from a loaded configuration, as file:function:call"
+	ctors := map[string]bool{"NewTransform": true, "NewRewriter": true, "NewMatcher": true, "NewInput": true, "NewParser": true,
+		"MustNewParser": true, "NewSerializer": true, "MustNewEventSerializer": true, "NewEventSerializer": true, "NewChunkMaker": true,
+		"NewForwarder": true, "NewClientWorker": true, "NewBufferer": true, "StartOrchestrator": true, "NewOrchestrator": true,
+		"NewRewritersFromConfig": true, "NewTransformsFromConfig": true, "getPosition": true, "NewLoaderFromConfigFile": true}
+	var sites []string
+	for _, dir := range []string{"transform", "rewrite", "input", "output", "orchestrate", "buffer", "base/bsupport", "base/bmatch", "run"} {
+		filepath.Walk(filepath.Join(repoRoot, dir), func(path string, info os.FileInfo, err error) error {
+			if err != nil || info.IsDir() || !strings.HasSuffix(path, ".go") || strings.HasSuffix(path, "_test.go") || strings.HasSuffix(path, "_verif.go") ||
+				strings.Contains(path, "test_helpers") {
+				return nil
+			}
+			rel, _ := filepath.Rel(repoRoot, path)
+			file := parse(rel)
+			if file == nil {
+				return nil
+			}
+			for _, d := range file.Decls {
+				fd, ok := d.(*ast.FuncDecl)
+				if !ok || fd.Body == nil || !ctors[fd.Name.Name] {
+					continue
+				}
+				inspect(fd.Body, func(n ast.Node) bool {
+					c, ok := n.(*ast.CallExpr)
+					if !ok {
+						return true
+					}
+					fun := src(c.Fun)
+					last := fun
+					if i := strings.LastIndexByte(fun, '.'); i >= 0 {
+						last = fun[i+1:]
+					}
+					if fun == "panic" || strings.HasPrefix(last, "Must") || last == "Panic" || last == "Panicf" || last == "Fatal" || last == "Fatalf" {
+						arg := ""
+						if len(c.Args) > 0 {
+							arg = src(c.Args[0])
+							if len(arg) > 40 {
+								arg = arg[:40]
+							}
+						}
+						sites = append(sites, fmt.Sprintf("%s:%s:%s(%s)", rel, fd.Name.Name, fun, arg))
+					}
+					return true
+				})
+			}
+			return nil
+		})
+	}
+	sort.Strings(sites)
+	f.strs["cfg_must_sites"] = sites
+	f.note["cfg_missing_sections_rejected"] = "run/config.go ParseConfigFile: nil orchestration and empty outputBufferPairs return errors; OutputBufferConfig.VerifyConfig checks nil buffer / output"
+	f.bool["cfg_missing_sections_rejected"] = nil
+	if fd := fn("run/config.go", "ParseConfigFile", ""); fd != nil {
+		t := src(fd.Body)
+		ok := strings.Contains(t, "conf.Orchestration.Value == nil") && strings.Contains(t, "len(conf.OutputBuffersPairs) == 0")
+		if fd2 := fn("base/bconfig/outputbufferconfig.go", "VerifyConfig", "OutputBufferConfig"); fd2 != nil {
+			t2 := src(fd2.Body)
+			ok = ok && strings.Contains(t2, "cfg.BufferConfig.Value == nil") && strings.Contains(t2, "cfg.OutputConfig.Value == nil")
+		} else {
+			ok = false
+		}
+		f.bool["cfg_missing_sections_rejected"] = bp(ok)
+	}
 }
 
 // ---- C15: transforms ----
